@@ -173,8 +173,16 @@ def main():
         return not any(k['key'] == v.get('key') for k in known)
     fresh = [v for v in violations if _unknown(v)]
     if fresh and all(v['engine'] == 'vx' for v in fresh) and 'bx' in only and cfg.get('bx'):
-        esc = bxrun.run_modes(pid, cfg['bx'], tier='thorough', seed=seed + 1000)
-        cov['engines']['bx_escalation'] = {'why': 'only proof obligations failed; looking for a failing input', 'report': esc['report'], 'evaluations': esc['evaluations']}
+        # escalation: the thorough tier when this already is a thorough run or the mode is cheap, otherwise three more quick campaigns
+        # with fresh seeds (a thorough campaign of the parser modes takes up to 8 minutes)
+        esc = {'report': [], 'violations': [], 'undecided': [], 'evaluations': 0}
+        rounds = [('thorough', seed + 1000)] if a.tier == 'thorough' else [('quick', seed + 1000), ('quick', seed + 2000), ('quick', seed + 3000)]
+        for (t_, s_) in rounds:
+            e_ = bxrun.run_modes(pid, cfg['bx'], tier=t_, seed=s_)
+            esc['report'] += e_['report']; esc['violations'] += e_['violations']; esc['undecided'] += e_['undecided']; esc['evaluations'] += e_['evaluations']
+            if [v for v in e_['violations'] if _unknown(v)]:
+                break
+        cov['engines']['bx_escalation'] = {'why': 'only proof obligations failed; looking for a failing input', 'rounds': [list(r_) for r_ in rounds], 'report': esc['report'], 'evaluations': esc['evaluations']}
         bx_eval += esc['evaluations']
         cov['evaluations'] = bx_eval
         violations += esc['violations']
@@ -183,7 +191,7 @@ def main():
             kept = []
             for v in violations:
                 if v['engine'] == 'vx' and _unknown(v) and not _is_safety(v):
-                    undecided.append('vx: obligation no longer discharged, no failing input found by %d bounded evaluations (quick and thorough tier): %s'
+                    undecided.append('vx: obligation no longer discharged, no failing input found by %d bounded evaluations (incl. escalation with fresh seeds): %s'
                                      % (bx_eval, v['what'][:300]))
                     cov.setdefault('uncorroborated_proof_failures', []).append({'obligation': v.get('obligation'), 'class': _class(v), 'what': v.get('what'), 'detail': (v.get('detail') or '')[:1500]})
                 else:
